@@ -118,7 +118,8 @@ int cp_pss_ver(const g1_t a, const g1_t b, const bn_t m, const g2_t g,
 		g2_norm(r[0], r[0]);
 
 		pc_map_sim(e, p, r, 2);
-		if (gt_is_unity(e) && !g1_is_infty(a)) {
+		if (gt_is_unity(e) && !g1_is_infty(a) && g2_is_valid(g) &&
+				g2_is_valid(x) && g2_is_valid(y)) {
 			result = 1;
 		}
 	}
@@ -238,8 +239,12 @@ int cp_psb_ver(const g1_t a, const g1_t b, const bn_t ms[], const g2_t g,
 		g2_copy(q[1], g);
 		g2_neg(q[1], q[1]);
 		pc_map_sim(e, p, q, 2);
-		if (!g1_is_infty(a) && gt_is_unity(e)) {
+		if (!g1_is_infty(a) && gt_is_unity(e) && g2_is_valid(g) &&
+				g2_is_valid(x)) {
 			result = 1;
+			for (size_t i = 0; i < l; i++) {
+				result &= g2_is_valid(y[i]);
+			}
 		}
 	}
 	RLC_CATCH_ANY {
